@@ -1,1 +1,12 @@
 import CGV.Props.C20
+#print axioms CGV.C20.C20_two_equals
+#print axioms CGV.C20.C20_surplus_positional
+#print axioms CGV.C20.C20_surplus_base
+#print axioms CGV.C20.C20_surplus_frag
+#print axioms CGV.C20.C20_duplicate_argument
+#print axioms CGV.C20.C20_non_numeric
+#print axioms CGV.C20.C20_read_propagates
+#print axioms CGV.C20.C20_dangling
+#print axioms CGV.C20.C20_ring_parity
+#print axioms CGV.C20.C20_duplicate_ring_edge
+#print axioms CGV.C20.C20_missing_fragment
